@@ -2,7 +2,7 @@
    Model/Effects.v: a program accepted by the static check `safe` leaves every object of the caller's heap
    untouched, for ALL initial heaps and ALL argument tuples (any aliasing between arguments included). *)
 From Coq Require Import List Arith ZArith Bool.
-From TLV Require Import Model.Effects Proofs.EffectsProofs Proofs.EffectsProofsSk Proofs.EffectsProofsGen Proofs.EffectsProofsPaths Proofs.EffectsProofsReach Proofs.EffectsProofsR5 Corr.C15.
+From TLV Require Import Model.Effects Proofs.EffectsProofs Proofs.EffectsProofsSk Proofs.EffectsProofsGen Proofs.EffectsProofsPaths Proofs.EffectsProofsReach Proofs.EffectsProofsR5 Proofs.EffectsProofsMono Corr.C15.
 Import ListNotations.
 
 (* the frame theorem *)
@@ -421,3 +421,37 @@ Example C15_interrupt_nonvacuous :
   interrupted_footprints sk_hals_nnls (map fst nnls_args) nnls_heap = [[]; []; [2]; [2]; [2]; [2]; [2]; [2]; [2]; [2]; [2]] /\
   steps sk_hals_nnls = 10.
 Proof. exact interrupt_nonvacuous. Qed.
+
+(* ------------------------------------------------------------------ the static check is monotone in the protection: flagging
+   more parameters as updated in place never turns an accepted program into a rejected one (simulation between two abstract
+   executions, induction on the program); so the all-protected verdict `safe`, the one proved for the skeleton families and
+   required of every extracted skeleton without documented exception, is the strongest: it implies `safe_with flags` for
+   every flag vector, and C15_frame_inplace then applies to it as well. *)
+Theorem C15_safe_with_monotone :
+  (forall c f f', flags_le f f' -> length f' <= length f -> safe_with f c = true -> safe_with f' c = true) /\
+  (forall c flags, safe (length flags) c = true -> safe_with flags c = true).
+Proof. exact (conj safe_with_mono safe_implies_safe_with). Qed.
+Print Assumptions C15_safe_with_monotone.
+
+Example C15_safe_with_monotone_nonvacuous :
+  flags_le [false; false; true] [true; false; true] /\ safe_with [false; false; true] sk_hals_nnls = true /\
+  safe_with [true; false; true] sk_hals_nnls = true /\ safe_with [false; false; false] sk_hals_nnls = false.
+Proof. exact safe_with_mono_nonvacuous. Qed.
+
+(* ------------------------------------------------------------------ genuine defect found in round 5 (known finding
+   cp_normalize_inplace_false): CPTensor.normalize(inplace=False) is documented to return a normalised copy; the code ignores
+   the option and assigns self.weights / self.factors.  Refuted for the protected receiver; the restricted statement that
+   does hold (nothing but the receiver object changes); the skeleton of the candidate repair is accepted. *)
+Theorem C15_cp_normalize_inplace_false_refuted :
+  safe 1 sk_cp_normalize_method = false /\
+  exists (self : ref) (h0 : heap) (o : nat), o < length h0 /\
+    nth_error (snd (exec sk_cp_normalize_method (env0 [self], h0))) o <> nth_error h0 o.
+Proof. exact cp_normalize_inplace_false_refuted. Qed.
+Print Assumptions C15_cp_normalize_inplace_false_refuted.
+
+Theorem C15_cp_normalize_inplace_false_partial :
+  (forall (self : ref) (h0 : heap) (o : nat), o < length h0 -> target self <> Some o ->
+     nth_error (snd (exec sk_cp_normalize_method (env0 [self], h0))) o = nth_error h0 o) /\
+  safe 1 sk_cp_normalize = true.
+Proof. exact (conj cp_normalize_method_frame cp_normalize_repaired_safe). Qed.
+Print Assumptions C15_cp_normalize_inplace_false_partial.
